@@ -297,6 +297,53 @@ func assignsIn(fd *ast.FuncDecl) []string {
 	return out
 }
 
+// callsIn lists every call expression of fd whose text contains `sub` ("" = all), in source order
+// (an enclosing call before the calls in its arguments).
+func callsIn(fd *ast.FuncDecl, sub string) []string {
+	if fd == nil {
+		return nil
+	}
+	var out []string
+	ast.Inspect(fd.Body, func(n ast.Node) bool {
+		if ce, ok := n.(*ast.CallExpr); ok {
+			if s := exprStr(ce); strings.Contains(s, sub) {
+				out = append(out, s)
+			}
+		}
+		return true
+	})
+	return out
+}
+
+// varSpecs lists `name = value` for the var declarations of fd that declare one of the given names.
+func varSpecs(fd *ast.FuncDecl, names map[string]bool) []string {
+	if fd == nil {
+		return nil
+	}
+	var out []string
+	ast.Inspect(fd.Body, func(n ast.Node) bool {
+		if vs, ok := n.(*ast.ValueSpec); ok {
+			for i, id := range vs.Names {
+				if names[id.Name] && i < len(vs.Values) {
+					out = append(out, id.Name+" = "+exprStr(vs.Values[i]))
+				}
+			}
+		}
+		return true
+	})
+	return out
+}
+
+func filterContains(l []string, sub string) []string {
+	var out []string
+	for _, s := range l {
+		if strings.Contains(s, sub) {
+			out = append(out, s)
+		}
+	}
+	return out
+}
+
 // ifConds lists the conditions of every if statement of fd (nested ones included), in source order.
 func ifConds(fd *ast.FuncDecl) []string {
 	if fd == nil {
@@ -858,6 +905,19 @@ func main() {
 	for _, n := range []string{"ReportCount", "ReportGauge", "ReportTimer"} {
 		o.strs("m3LifeCached"+n, topStmts(findFunc(m3, "cachedMetric", n)), "m3 cachedMetric."+n+": top-level statements")
 	}
+
+	// m3 size accounting, tag conversion, clock initialisation (C12, C13)
+	o.strs("m3NewReporterSizes", varSpecs(findFunc(m3, "", "NewReporter"), map[string]bool{"numOverheadBytes": true, "freeBytes": true}), "m3 NewReporter: overhead and free bytes")
+	o.strs("m3NewReporterConds", filterContains(ifConds(findFunc(m3, "", "NewReporter")), "freeBytes"), "m3 NewReporter: the free-bytes guard")
+	o.strs("m3NewReporterClockStores", callsIn(findFunc(m3, "", "NewReporter"), "r.now.Store"), "m3 NewReporter: stores to the clock cell before the goroutines start")
+	o.strs("m3AllocateHistogramSizes", filterContains(assignsIn(findFunc(m3, "reporter", "AllocateHistogram")), "metric.size"), "m3 (*reporter).AllocateHistogram: assignments to a bucket's charged size")
+	o.strs("m3CalculateBucketSize", topStmts(findFunc(m3, "reporter", "calculateBucketSize")), "m3 (*reporter).calculateBucketSize (absent in the pinned tree)")
+	o.strs("m3CalculateSize", topStmts(findFunc(m3, "reporter", "calculateSize")), "m3 (*reporter).calculateSize")
+	o.strs("m3ConvertTagsCalls", callsIn(findFunc(m3, "reporter", "convertTags"), ""), "m3 (*reporter).convertTags: calls")
+	o.strs("m3ConvertTagsConds", ifConds(findFunc(m3, "reporter", "convertTags")), "m3 (*reporter).convertTags: conditions")
+	o.strs("m3TagsMatch", topStmts(findFunc(m3, "", "tagsMatch")), "m3 tagsMatch (absent in the pinned tree)")
+	o.strs("m3TimeLoopCalls", callsIn(findFunc(m3, "reporter", "timeLoop"), "r.now.Store"), "m3 (*reporter).timeLoop: stores to the clock cell")
+	o.strs("m3ProcessBytesAssigns", filterContains(assignsIn(findFunc(m3, "reporter", "process")), "bytes"), "m3 (*reporter).process: assignments to bytes")
 
 	// thriftudp
 	o.int("udpMaxLength", constValue(udp, "MaxLength"), udp, "thriftudp: MaxLength")
